@@ -145,7 +145,15 @@ func genExt4History(r *core.Rng, tier string, idx int, wide bool) *core.Trace {
 		}
 	}
 	for i := 0; i < nops; i++ {
-		switch r.PickW(10, 12, 24, 8, 8, 9, 6, 6, 6, 5, 3, 3, 2, 1, 4, 1) {
+		switch r.PickW(10, 12, 24, 8, 8, 9, 6, 6, 6, 5, 3, 3, 2, 1, 4, 1, 3) {
+		case 16:
+			// blocks that held data go back to the volume and are handed to a new, short file, which then gets a write
+			// beyond its end that still lies in its first block: the gap must read as zeros, not as the old file
+			old, nu := pickFile(), pickFile()
+			t.Ops = append(t.Ops, core.Op{K: "write", P: old, A: 0, B: r.Range(3000, 20000), C: int64(r.U64() >> 2)},
+				core.Op{K: "remove", P: old},
+				core.Op{K: "write", P: nu, A: 0, B: r.Range(1, 300), C: int64(r.U64() >> 2)},
+				core.Op{K: "write", P: nu, A: 3, B: r.Range(1, 200), C: int64(r.U64() >> 2), D: r.Range(1, 500)})
 		case 15:
 			t.Ops = append(t.Ops, core.Op{K: "squeeze", A: r.Range(0, 1000)})
 		case 14:
